@@ -160,6 +160,11 @@ def run(ctx):
     if okq:
         v = peel(qv[0])
         okq = isinstance(v, tuple) and v[0] == 'bin' and v[1] == 'Eq' and const_val(v[3]) == 1 and isinstance(peel(v[2]), tuple) and peel(v[2])[0] == 'bin' and peel(v[2])[1] == 'Shr' and const_val(peel(v[2])[3]) == 15
+        if not okq:
+            # any other spelling: on the bits, the stored value is exactly bit 15 of the flags word
+            from vlib.bits import BitEval
+            b_ = BitEval(lambda e: ('w', 16) if (isinstance(e, tuple) and e[0] in ('entry', 'phi', 'modby')) or is_call(e, r'read_u16$') else None).bits(peel(qv[0], casts=False))
+            okq = b_ is not None and list(b_)[:1] == [('in', 'w', 15)] and all(x == 0 for x in list(b_)[1:])
     rep.check(r4, okq, 'dns:qr-bit', '_qr <- %s' % [short(x) for x in qv], '%s:%d' % (hp.file, hp.line))
 
     # R5 RPC
